@@ -6,6 +6,7 @@ mod consts;
 mod fsop;
 mod ffi;
 mod consts_more;
+mod c01;
 mod c03;
 mod c04;
 mod c08;
@@ -66,6 +67,7 @@ fn main() {
             }
             let mut ctx = Ctx { seed, thorough, out: Out::new(&out), rng: Rng::new(seed), corpus };
             match prop.as_str() {
+                "C01" => c01::run(&mut ctx),
                 "C03" => c03::run(&mut ctx),
                 "C04" => c04::run(&mut ctx),
                 "C08" => c08::run(&mut ctx),
